@@ -124,7 +124,7 @@ PROPS = {
     'rule': 'one PRNG: histories of 1-15 ops (1-40 thorough) over 6 hashes x 3 jobs on a real TargetsManager+Service (gin in-process)+Proxy: updates '
             '(adds, removals, state flips, repeats, empty sets, moves between jobs, 1/15 with a failing callback), proxied scrapes of assigned and '
             'unassigned targets (ok with known kept/dropped sample counts, connection failure, HTTP 500, body breaking off; 1/12 with a stop '
-            'reason), restarts (new manager on the same store dir); observed after start-up and after every op: /targets/status/ and /runtimeinfo/. '
+            'reason; 1/8 against a job whose http client the shard does not have - never an operation of the model, whatever it records shows at the next observation), restarts (new manager on the same store dir); 1/4 of the new targets arrive with an estimate above their total; observed after start-up and after every op: /targets/status/, /runtimeinfo/ and /samples/?with_metrics_detail=true (read twice: per job the kept samples and the (kept, all) counts of the two metrics of the payloads). '
             'non-trivial = history of >= 3 ops; distinct by input',
     'theorems': 'C10_update C10_new_target C10_kept_target C10_invariant C10_idle_update C10_idle_scrape C10_store_after_ack C10_restart',
     'trusted_base': [   'model Model/Sidecar.v hand-written from targets.go/service.go/proxy.go/status.go; tie = step-by-step differential run '
@@ -140,7 +140,7 @@ PROPS = {
     'rule': 'one PRNG: histories of 1-15 ops (1-40 thorough) over 6 hashes x 3 jobs on a real TargetsManager+Service (gin in-process)+Proxy: updates '
             '(adds, removals, state flips, repeats, empty sets, moves between jobs, 1/15 with a failing callback), proxied scrapes of assigned and '
             'unassigned targets (ok with known kept/dropped sample counts, connection failure, HTTP 500, body breaking off; 1/12 with a stop '
-            'reason), restarts (new manager on the same store dir); observed after start-up and after every op: /targets/status/ and /runtimeinfo/. '
+            'reason; 1/8 against a job whose http client the shard does not have - never an operation of the model, whatever it records shows at the next observation), restarts (new manager on the same store dir); 1/4 of the new targets arrive with an estimate above their total; observed after start-up and after every op: /targets/status/, /runtimeinfo/ and /samples/?with_metrics_detail=true (read twice: per job the kept samples and the (kept, all) counts of the two metrics of the payloads). '
             'non-trivial = history of >= 3 ops; distinct by input || stats engine: 1-3 blocks of 0-6 (0-30) samples over 3 metrics x 3 optional '
             'labels, exact duplicates, 0-2 keep/drop rules with literal regexes on __name__ or a label; real exposition parser + real '
             'relabel.Process; non-trivial = >= 2 samples',
